@@ -279,7 +279,7 @@ func init() {
 		Level: "exploration",
 		Rule: "part 1 (inv): for every valid operation with <=K fields, every single invalidating mutation (19 kinds: unknown field/type condition/argument/directive, wrong literal, undeclared/unused/mistyped variable, " +
 			"required argument removed, scalar with / object without selection, fragment cycle, unknown fragment, duplicate/ambiguous/unknown operation name, conflicting response keys, wrong root type, syntax error) at every position; " +
-			"mutants that stay valid are skipped; operation-name mutations are sent after a valid request with the same document text; oracle: no downstream request, errors non-empty, data null, status 200. " +
+			"mutants that stay valid are skipped; operation-name mutations are sent after a valid request with the same document text; oracle: no downstream request, errors non-empty, data null, status 200; each invalid operation is also sent as the second and as the first entry of a client batch next to a valid one (answers stay at their positions, the valid one keeps its data, downstream requests only for the valid one). " +
 			"part 2 (err): for every operation with <=K fields, a GraphQL error payload (1 or 2 errors, also two with the same message; unicode message, nested extensions, path, locations) injected at every downstream call and every position of its batch; " +
 			"oracle: every downstream error is in the client's errors with equal message, extensions and path; non-trivial = invalid-by-validator (part 1) / fault actually hit a sub-request (part 2)",
 		Assumptions: []string{"gqlparser's validator on the merged schema defines 'invalid'", "the in-memory services log every request they receive"},
@@ -347,6 +347,40 @@ func init() {
 						}
 						if status != 200 {
 							sigs = append(sigs, fmt.Sprintf("status %d", status))
+						}
+						// the same invalid operation as the second and as the first entry of a client batch,
+						// next to a valid one: validation answers stay at the position of their operation
+						for _, invAt := range []int{1, 0} {
+							valid := Case{Q: "{ n1s { id } }"}
+							list := []json.RawMessage{caseBody(valid), caseBody(valid)}
+							list[invAt] = caseBody(ic.Case)
+							bb, _ := json.Marshal(list)
+							f.Fakes.Reset()
+							_, rb := f.Post(bb, "application/json")
+							var res []map[string]interface{}
+							if err := json.Unmarshal(rb, &res); err != nil || len(res) != 2 {
+								sigs = append(sigs, "batch with an invalid operation is not answered with an array of two objects")
+								continue
+							}
+							for _, sr := range f.Fakes.Reqs {
+								if len(sr.Roots) != 1 || sr.Roots[0] != "n1s" {
+									sigs = append(sigs, "invalid operation in a batch caused a downstream request")
+								}
+							}
+							inv, ok := res[invAt], res[1-invAt]
+							if inv == nil {
+								sigs = append(sigs, "invalid operation in a batch got no answer at its position")
+							} else {
+								if e, has := inv["errors"].([]interface{}); !has || len(e) == 0 {
+									sigs = append(sigs, "invalid operation in a batch answered without errors at its position")
+								}
+								if d, has := inv["data"]; !has || d != nil {
+									sigs = append(sigs, "invalid operation in a batch answered with non-null data")
+								}
+							}
+							if ok == nil || ok["data"] == nil || ok["errors"] != nil {
+								sigs = append(sigs, "valid operation next to an invalid one in a batch lost its answer")
+							}
 						}
 						if len(sigs) > 0 {
 							em.Fail(atoms, sigs, rp)
